@@ -21,7 +21,7 @@ import (
 
 func TestMain(m *testing.M) { kit.Main(m) }
 
-const rule = "base scenarios that the model says start (node family with required variants placed where satisfiable, 0-2 components with required value/prefix configuration, 0-2 observing post-processors, 1-2 loaders, 1-3 runners) x fault plans; fault sites are ENUMERATED from the base: every Init / AfterPropertiesSet, every post-processor callback (before, after, after-instantiation, early-reference) on every component, every loader, every runner, every required component point made unsatisfiable, every required configuration key removed; quick: every single site of each base, thorough: also pairs; oracle: a fault that fired before the runner phase => Run returns an error, no panic, no runner invoked; nothing fired => Run succeeds, runners ran once, unsatisfied optional points are zero; non-trivial = a fault that fired in a callback of a component that is not the first one created, or a pair; distinct by base shape + fault plan"
+const rule = "base scenarios that the model says start (node family with required variants placed where satisfiable, 0-2 components with required value/prefix configuration, 0-2 observing post-processors, 1-2 loaders, 1-3 runners) x fault plans; fault sites are ENUMERATED from the base: every Init / AfterPropertiesSet, every post-processor callback (before, after, after-instantiation, early-reference) on every component, every loader, every runner, every required component point made unsatisfiable, every required configuration key removed; quick: every single site of each base, thorough: also pairs; oracle: a fault that fired before the runner phase => Run returns an error, no panic, no runner invoked; nothing fired => Run succeeds, runners ran once, unsatisfied optional points are zero; non-trivial = a fault that fired in a callback of a component that is not the first one created, or a pair; distinct by base shape + fault plan; since rounds 7/8 also a scanner rejecting every component at once, same-named points in two embedded helper structs, a post-processor component with an unsatisfiable required point, an optional array point, and an observer that rejects substitutes only"
 
 // ---- components with configuration points -------------------------------------
 
